@@ -24,16 +24,25 @@ func NewFieldsMatcher(expression string) (fm *FieldsMatcher, err error) {
 	return
 }
 
+// visible when excluding : everything but the selected nodes and what is inside them
+// visible when including : the selected nodes, what is inside them and their parents
+func (self *FieldsMatcher) visible(base *Path, path *Path) bool {
+	if self.reverse {
+		return !self.selector.PathMatches(base, path)
+	}
+	return self.selector.PathMatches(base, path) || self.selector.PathLeadsTo(base, path)
+}
+
 func (self *FieldsMatcher) CheckContainerPreConstraints(r *ChildRequest) (bool, error) {
 	if r.IsNavigation() {
 		return true, nil
 	}
-	return self.selector.PathMatches(r.Base, r.Path) != self.reverse, nil
+	return self.visible(r.Base, r.Path), nil
 }
 
 func (self *FieldsMatcher) CheckFieldPreConstraints(r *FieldRequest, hnd *ValueHandle) (bool, error) {
 	if r.IsNavigation() {
 		return true, nil
 	}
-	return self.selector.PathMatches(r.Base, r.Path) != self.reverse, nil
+	return self.visible(r.Base, r.Path), nil
 }
